@@ -23,13 +23,14 @@ RULE = ("a directory tree with the same schema under two paths, different schema
         "path, an unparsable SDL and JSON schema, an unparsable query, a query that fails validation; a pool of ~30 distinct calls "
         "(schema path x query path | query string x 3 option sets). Reference = every distinct call alone in a fresh process. "
         "Histories: random sequences of 20-200 calls in one process with failing calls interleaved; stampedes of 2..16 threads "
+        "one history over 80 (thorough 400) distinct schema and query files followed by repeats of the early ones; stampedes of 2..16 threads "
         "released by a barrier with 0-300 us sleeps between calls (never inside the cache lock); every call's result must equal "
         "the reference (exact tokens for Ok, exact message for Err, panic class otherwise). Cache event log: per (cache, key) at "
         "most one fill, only hits after it, never a hit without a fill. Non-trivial = history with a failing call or >= 2 threads; "
         "distinct by the sequence of (thread, call id)")
 
 # minima that hold by construction (24 histories x >= 20 calls, every other one starting with a failing call; 12 stampedes x >= 2 threads x >= 3 calls)
-FLOOR = {"history-calls": 400, "stampede-calls": 60, "failing-calls-in-histories": 10, "calls-after-a-failure": 100, "cache-events": 300, "distinct-lock-orders": 3, "miri-runs": 1}
+FLOOR = {"history-calls": 400, "stampede-calls": 60, "failing-calls-in-histories": 10, "calls-after-a-failure": 100, "cache-events": 300, "distinct-lock-orders": 3, "miri-runs": 1, "many-files-calls": 100}
 OPTS = [{"mode": "cli"}, {"mode": "cli", "normalization": "rust", "response_derives": "Debug"}, {"mode": "cli", "other_variant": True, "skip_none": True}]
 
 
@@ -59,7 +60,18 @@ def build_tree(root, rng):
     }
     # a fixed pair of documents whose FIRST fragment is recursive in one and plain in the other (same fragment index,
     # same name), against a small schema: state carried over between documents would show here
-    files["fix/schema.graphql"] = "type A { id: ID a: A as: [A!] name: String }\ntype Query { a: A }\n"
+    files["fix/schema.graphql"] = ("interface Node { id: ID }\ntype A implements Node { id: ID a: A as: [A!] name: String }\ntype B implements Node { id: ID b: Int }\n"
+                                   "union U = A | B\ntype Query { a: A n: Node u: U }\n")
+    # documents that fail each kind of validation after having walked fragments, and valid look-alikes whose
+    # fragments have the same names / indices (state left behind by a failed call would hit the look-alike)
+    files["fix/bad_typename.graphql"] = "query T { n { ...Outer } }\nfragment Outer on Node { ...Base }\nfragment Base on Node { id }\n"
+    files["fix/good_typename.graphql"] = "query T { n { ...Outer } }\nfragment Outer on Node { ...Base }\nfragment Base on Node { __typename id }\n"
+    files["fix/bad_condition.graphql"] = "query C { a { ...OnB } }\nfragment OnB on B { b }\n"
+    files["fix/good_condition.graphql"] = "query C { u { __typename ...OnB } }\nfragment OnB on B { b }\n"
+    files["fix/bad_spread.graphql"] = "query S { a { ...Missing } }\nfragment Other on A { id }\n"
+    files["fix/good_spread.graphql"] = "query S { a { ...Other } }\nfragment Other on A { id }\n"
+    files["fix/bad_field.graphql"] = "query F { a { ...Fr } }\nfragment Fr on A { nope }\n"
+    files["fix/good_field.graphql"] = "query F { a { ...Fr } }\nfragment Fr on A { name }\n"
     files["fix/rec.graphql"] = "query R { a { ...F } }\nfragment F on A { id a { ...F } }\n"
     files["fix/plain.graphql"] = "query P { a { ...F } }\nfragment F on A { id name }\n"
     files["fix/rec2.graphql"] = "query R2 { a { ...G ...F } }\nfragment G on A { name }\nfragment F on A { as { ...F } }\n"
@@ -108,6 +120,11 @@ def build_tree(root, rng):
     call("fix/schema.graphql", "fix/plain.graphql")
     call("fix/schema.graphql", "fix/rec2.graphql")
     call("fix/schema.graphql", text=files["fix/plain.graphql"], opts=1)
+    for nm in ("typename", "condition", "spread", "field"):
+        call("fix/schema.graphql", "fix/bad_%s.graphql" % nm)
+        call("fix/schema.graphql", "fix/good_%s.graphql" % nm)
+        call("fix/schema.graphql", text=files["fix/bad_%s.graphql" % nm])
+        call("fix/schema.graphql", text=files["fix/good_%s.graphql" % nm], opts=2)
     # relative paths (the drivers run with tree/a as working directory): `../schema.graphql` is tree/schema.graphql (= b's),
     # `schema.graphql` is tree/a/schema.graphql; plus other spellings of the same files
     def rel(schema, query, opts=0):
@@ -255,6 +272,37 @@ def main(run):
         run.nontrivial("h", seq)
         if hi < 2:
             run.sample({"kind": "history", "sequence": seq[:40], "outcomes": [o["outcome"] for o in outs[:40]], "events": events[:12]}, limit=4)
+    # ---- (1b) many distinct files in one process, then the early ones again (a cache that forgets must forget correctly)
+    many_dir = os.path.join(root, "tree", "many")
+    os.makedirs(many_dir)
+    many = []
+    nmany = run.size(80, 400)
+    for i in range(nmany):
+        sp = os.path.join(many_dir, "s%03d.graphql" % i)
+        qp = os.path.join(many_dir, "q%03d.graphql" % i)
+        open(sp, "w").write("type Query { f%03d: Int g: T%03d }\ntype T%03d { v%03d: String }\n" % (i, i, i, i))
+        open(qp, "w").write("query M%03d { f%03d g { v%03d } }\n" % (i, i, i))
+        many.append({"id": "m%d" % i, "schema_path": sp, "query_path": qp, "options": OPTS[0], "want": ["tokens"]})
+    with ThreadPoolExecutor(NCPU) as ex:
+        mrefs = list(ex.map(lambda c: run_gendrv_one(c, wall_s=60, cwd=cwd), many))
+    for c, r in zip(many, mrefs):
+        resp = r.get("response")
+        ref[c["id"]] = ("ok", resp["tokens"]) if (r["exit"] == 0 and resp) else ("weird", "exit=%s" % r["exit"])
+        by_id[c["id"]] = c
+    seq = [c["id"] for c in many] + [c["id"] for c in many[: nmany // 2]] + [rng.choice(many)["id"] for _ in range(nmany // 2)]
+    p = subprocess.run([exe, "serve"], input="".join(json.dumps(dict(by_id[c], events=True)) + "\n" for c in seq), capture_output=True, text=True, timeout=900, cwd=cwd)
+    outs = [json.loads(l) for l in p.stdout.splitlines()]
+    case = {"id": "many-files", "corpus": "clean", "kind": "history", "sequence": seq[:50] + ["..."], "distinct_files": 2 * nmany}
+    if len(outs) != len(seq):
+        run.violation(case, "driver died after %d of %d calls in the many-files history" % (len(outs), len(seq)))
+    else:
+        events = []
+        for i, (cid, o) in enumerate(zip(seq, outs)):
+            run.count("many-files-calls")
+            if compare(cid, o, case, "(position %d of the many-files history: %d distinct schema and query files, then repeats)" % (i, nmany)) is False:
+                break
+            events += o.get("events", [])
+        check_events(events, case)
     # ---- (2) stampedes
     n_st = run.size(12, 400)
     orders = set()
